@@ -635,7 +635,7 @@ def compare_events(ctx, events, replies, case, tables=REC_TABLES, what="recordin
 # ---------------------------------------------------------------------------------------------- programs
 class Program:
     """A family of pure tasks `t0..t(n-1)`; `ti(x)` returns `[const_i, x, tj(x + k), ...]` for its calls
-    `(j, k)` with `j > i`.  `versions[i]` is part of the task hash (an edit = version bump + new constant).
+    `(j, k)` or `(j, k, via)` with `j, via > i` (with `via` the argument is computed from another task's result).  `versions[i]` is part of the task hash (an edit = version bump + new constant).
     `shallow[i]` = `check_valid="shallow"`.  The root expression is `main()` = `[ti(x), ...]` for `roots`."""
 
     def __init__(self, n, calls, shallow, roots, ns="gc"):
@@ -654,7 +654,7 @@ class Program:
         return 1000 * (i + 1) + self.versions[i]
 
     def expected(self, i, x):
-        return [self.const(i), x] + [self.expected(j, x + k) for (j, k) in self.calls[i]]
+        return [self.const(i), x] + [self.expected(c[0], x + c[1]) for c in self.calls[i]]
 
     def expected_main(self):
         return [self.expected(i, x) for (i, x) in self.roots]
@@ -676,8 +676,15 @@ class Program:
             c = prog.const(i)
             calls = list(prog.calls[i])
 
+            def arg(x, call):
+                # `(j, k)`: plain argument x + k;  `(j, k, via)`: the same value taken out of the result of another
+                # task call (`tasks[via](x + k)[1]`), so that the Argument row has an upstream CallNode
+                if len(call) > 2 and call[2] is not None:
+                    return tasks[call[2]](x + call[1])[1]
+                return x + call[1]
+
             def body(x):
-                return [c, x] + [tasks[j](x + k) for (j, k) in calls]
+                return [c, x] + [tasks[call[0]](arg(x, call)) for call in calls]
             body.__name__ = f"t{i}"
             opts = dict(name=f"t{i}", namespace=prog.ns, version=str(prog.versions[i]))
             if prog.shallow[i]:
@@ -772,7 +779,10 @@ def gen_program(rng, n=None, ns="gc"):
         cs = []
         if later:
             for _ in range(rng.choice([0, 1, 1, 2, 2])):
-                cs.append((rng.choice(later), rng.choice([0, 0, 1])))
+                call = (rng.choice(later), rng.choice([0, 0, 1]))
+                if rng.random() < 0.3:
+                    call = call + (rng.choice(later),)
+                cs.append(call)
         calls.append(cs)
     shallow = [rng.random() < 0.5 for _ in range(n)]
     if not any(shallow):
